@@ -75,7 +75,11 @@ def handle : Handler := fun op inp impl => do
     let r := isBatchReady c lab
     let implReady := impl == strJ "ok"
     return { model := strJ (if r = .ok then "ok" else "notReady"),
-             holds := [("C11.ready_means", !implReady || readyMeans c lab)],
+             holds := [("C11.ready_means", !implReady || readyMeans c lab),
+                       -- completeness: once the workload has everything the batch calls for (and the planned pods
+                       -- carry the batch label), the verdict is Ready — otherwise the release can never advance
+                       ("C11.ready_complete", !readyMeans c lab || implReady),
+                       ("C07.ready_when_done", !readyMeans c lab || implReady)],
              tags := [s!"ready:{repr r}"] }
   | _ => .error s!"batchctx: unknown op {op}"
 
